@@ -15,8 +15,16 @@ import GoatProofs.C04I
 import GoatProofs.C05H
 import GoatProofs.C16
 import GoatProofs.C17
+import GoatProofs.C13H
 import GoatProofs.C13B
+import GoatProofs.C14
+import GoatProofs.C14H
+import GoatProofs.C15
+import GoatProofs.C15H
 import GoatProofs.C18
+import GoatProofs.C18B
+import GoatProofs.C19R
+import GoatProofs.C06B
 import GoatProofs.C20
 import GoatProofs.Lemmas.ValSet
 
@@ -187,6 +195,165 @@ example : ∃ r, ImportDemands addrOf dec (Finding.exportLit r0) r ∧
 
 end Genesis
 
+/-! ## C14 : the establishing steps succeed on a concrete state (C14.downtime_exact, evidence_tombstones,
+    C14H.downtime_establishes_jailed, evidence_establishes_tomb); C14H has them only as hypotheses of examples -/
+section Offences
+open Goat.Locking Goat.C14H.Example
+
+/-- `C14H.Example.s1`: validator `[1]` Active with 1000 btc, `maxMissed = 2`.  Fresh duplicate-vote evidence is
+    processed and tombstones it -/
+example : (∃ v, vget s1 [1] = some v ∧ v.status = .active ∧ Link s1 [1] v) ∧
+    isStale 60 3 none { kind := 1, address := [1], height := 2, time := 55 } = false ∧
+    ∃ s', handleEvidence s1 60 3 none { kind := 1, address := [1], height := 2, time := 55 } = .ok s' ∧
+      ((vget s' [1]).map (·.status) == some Status.tombstoned) = true := by
+  refine ⟨?_, by decide, ok_with _ (by decide +kernel)⟩
+  cases hv : vget s1 [1] with
+  | none => exact absurd hv (by decide +kernel)
+  | some v => exact ⟨v, rfl, (s1_link v hv).2, (s1_link v hv).1⟩
+
+/-- the state after one reported absence of `[1]` (first of the two absences of `C14H.Example.jailOps`) -/
+def sMissedOnce : State :=
+  runS (C11H.genesis params) (setup ++ [ .beginBlock 3 60 [{ address := [1], power := 1000, absent := true }] none [] ])
+
+/-- a signed vote and a first absence of the Active validator are processed (the `else` branch of
+    `downtime_exact`); the second absence reaches `maxMissed = 2` and jails it (the `then` branch) -/
+example : (∃ s', handleVote s1 60 { address := [1], power := 1000, absent := false } = .ok s' ∧
+      ((vget s' [1]).map (·.status) == some Status.active) = true) ∧
+    ((vget sMissedOnce [1]).map (fun v => (v.status, v.missed)) == some (Status.active, 1)) = true ∧
+    ∃ s', handleVote sMissedOnce 70 { address := [1], power := 1000, absent := true } = .ok s' ∧
+      ((vget s' [1]).map (fun v => (v.status, v.power, v.jailedUntil)) == some (Status.downgrade, 0, 75)) = true :=
+  ⟨ok_with _ (by decide +kernel), by decide +kernel, ok_with _ (by decide +kernel)⟩
+
+end Offences
+
+/-! ## C13H.rejected_if_empty : a non-empty recorded set that EndBlocker empties (the only member is jailed) -/
+section Emptied
+open Goat.Locking Goat.C13H
+
+def sEmptying : State :=
+  { (default : State) with
+    params := { (default : Params) with maxValidators := 2 },
+    validators := [([1], mkV [11] 0 .downgrade)], ranking := [], valset := [([1], 5)] }
+
+theorem sEmptying_rankOk : RankOk sEmptying where
+  rank_nodup := by decide
+  rank_rec := by intro p a hm; cases hm
+  rank_complete := by
+    intro a v hv hst _
+    have hm := mem_of_vget hv
+    simp only [sEmptying, List.mem_cons, Prod.mk.injEq, List.not_mem_nil, or_false] at hm
+    obtain ⟨rfl, rfl⟩ := hm
+    revert hst; decide
+  valset_nodup := by decide
+  valset_rec := by
+    intro a p hm
+    simp only [sEmptying, List.mem_cons, Prod.mk.injEq, List.not_mem_nil, or_false] at hm
+    obtain ⟨rfl, rfl⟩ := hm
+    exact ⟨mkV [11] 0 .downgrade, by decide⟩
+  pending_out := by
+    intro a v hv hst
+    have hm := mem_of_vget hv
+    simp only [sEmptying, List.mem_cons, Prod.mk.injEq, List.not_mem_nil, or_false] at hm
+    obtain ⟨rfl, rfl⟩ := hm
+    revert hst; decide
+  max_nonneg := by decide
+
+theorem sEmptying_pkInj : PkInj sEmptying := by
+  intro a b va vb ha hb _
+  have hma := mem_of_vget ha
+  have hmb := mem_of_vget hb
+  simp only [sEmptying, List.mem_cons, Prod.mk.injEq, List.not_mem_nil, or_false] at hma hmb
+  rw [hma.1, hmb.1]
+
+example : RankOk sEmptying ∧ PkInj sEmptying ∧ Sync sEmptying (cometOf sEmptying) ∧ sEmptying.valset ≠ [] ∧
+    ∃ r, endBlocker sEmptying = .ok r ∧ decide (r.1.valset = []) = true :=
+  ⟨sEmptying_rankOk, sEmptying_pkInj, sync_genesis _, by decide, ok_with _ (by decide +kernel)⟩
+
+end Emptied
+
+/-! ## C15 / C15H : an exiting unlock (`below_threshold_exits`, `exit_is_immediate`) and an exited record
+    (`exited_unlock_exact`, `exited_unlock_queued`, `exited_stays_withdrawable`), directly on states of `C15H.Example` -/
+section Exits
+open Goat.Locking Goat.C15H.Example
+
+/-- after the first unlock: `[1]` Pending (no EndBlocker has run) with 700 btc, threshold 500 -/
+def sExit : State := (C15H.grun start (ops.take 2)).1
+def r8 : UnlockReq := { id := 8, validator := [1], recipient := [9], token := "btc", tokenAddr := [], amount := 300 }
+/-- after the second unlock: `[1]` Inactive with 400 btc -/
+def sOut : State := (C15H.grun start (ops.take 3)).1
+
+example : (∃ x, unlockCore sExit r8 = .ok x ∧ decide (x.2.1 = true ∧ x.2.2 = 300) = true) ∧
+    ((vget sExit [1]).map (fun v => (v.status, v.power, amountOf v.locking "btc")) == some (Status.pending, 0, 700)) = true ∧
+    ((tget (rankRemove sExit 0 [1]) "btc").map (·.threshold) == some 500) = true ∧
+    exitingOf Status.pending (700 - unlockAmount 700 300) 500 = true :=
+  ⟨ok_with _ (by decide +kernel), by decide +kernel, by decide +kernel, by decide +kernel⟩
+
+example : (∃ v, OutRec sOut [1] v ∧ v.status = .inactive) ∧ (tget sOut "btc").isSome = true :=
+  ⟨C14H.Example.outB_sound sOut [1] Status.inactive (by decide) (by decide +kernel), by decide +kernel⟩
+
+end Exits
+
+/-! ## C18B : the hash clauses of `newBlockHashes_keeps_hash_clauses`; `tip_hash_missing_blocks_import` -/
+section BtcGenesis
+open Goat.Bitcoin Goat.C05H
+
+/-- the bridge of `C03H.Example.s1` (one hash, at the tip 3): every clause with `lo = 3`, and the next hash is voted in -/
+example :
+    let s := C03H.Example.s1
+    (∃ r, newBlockHashes rc0 "x" rel0 s voteV true 4 [hash32 1] = .ok r ∧ decide (r.2.tip = 4) = true) ∧
+    (∀ e ∈ s.hashes, e.2.length = 32) ∧ (s.hashes.map (·.1)).Nodup ∧ 3 ≤ s.tip ∧
+    (∀ k, (nlookup s.hashes k).isSome = true ↔ 3 ≤ k ∧ k ≤ s.tip) := by
+  intro s
+  refine ⟨ok_with _ (by decide +kernel), by decide, by decide, by decide, ?_⟩
+  intro k
+  by_cases hk : k = 3
+  · subst hk; decide
+  · have : (nlookup s.hashes k).isSome = false := by
+      simp [s, C03H.Example.s1, nlookup]
+      omega
+    rw [this]
+    constructor
+    · intro h; cases h
+    · intro h; exact absurd (by show k = 3; have : s.tip = 3 := rfl; omega) hk
+
+/-- valid parameters and key, tip far from the maximum, no hash at the tip (`C18B.Example.s0` without its hashes) -/
+example :
+    let s : State := { C18B.Example.s0 with hashes := [] }
+    paramsValidate s.params = true ∧ s.pubkey.validate = true ∧ s.tip + 1 < two64 ∧ nlookup s.hashes s.tip = none := by
+  decide
+
+end BtcGenesis
+
+/-! ## C19R.decode_encode : a non-empty list of well-formed groups (gas, withdrawal, add-voter) -/
+section Requests
+open Goat.Requests Goat.C19R
+
+example :
+    let gs : List Group :=
+      [.gas [{ height := 7, amount := 1000 }], .withdrawal [{ id := 1, amount := 2, txPrice := 3, address := [120] }],
+       .cancel1 [{ id := 1 }, { id := 2 }]]
+    gs.length ≤ 255 ∧ ∀ g ∈ gs, g.WF := by
+  intro gs
+  refine ⟨by decide, ?_⟩
+  intro g hg
+  simp only [gs, List.mem_cons, List.mem_nil_iff, or_false] at hg
+  rcases hg with rfl | rfl | rfl
+  · simp [Group.WF, GasRequest.WF]
+  · simp [Group.WF, WithdrawalRequest.WF]
+  · simp [Group.WF, Cancel1Request.WF]
+
+end Requests
+
+/-! ## C06B : `NumRange` (encodeSysTx_eq_iff_norm) outside `InRange`: the negative amount of `C06B.exNegative` -/
+section SysTxRange
+open Goat.C06B
+
+example : NumRange exNegative ∧ ¬ InRange exNegative := by
+  simp only [NumRange, InRange, DataInRange, exNegative]
+  decide
+
+end SysTxRange
+
 /-! ## conclusions decided by the hypotheses alone (not vacuous, but without content as implications) -/
 section Degenerate
 
@@ -195,16 +362,16 @@ section Degenerate
 theorem C04_position_binding_ideal_hyps_inconsistent (H : Bytes → Bytes) : ¬ C04.IdealHash H :=
   C04.idealHash_unsatisfiable H
 
-/-- `C04.C04_position_binding`, `C04_accepted_is_leaf`, `C04_same_position_same_leaf` and
-    `C03.C03_coinbase_only_at_zero` conclude `… ∨ Collision64 H` (the last: `Collision64 H`) under
-    `Out32 H`; that disjunct follows from `Out32 H` alone (already recorded as `C04.collision64_exists`),
-    so as propositions these four theorems are consequences of the pigeonhole lemma.  Their content is
-    the construction in the proof (which pair collides), not the implication. -/
+/-- Why `C04.C04_position_binding`, `C04_accepted_is_leaf`, `C04_same_position_same_leaf` and
+    `C03.C03_coinbase_only_at_zero` conclude `… ∨ RunCollision …` (a collision among the finitely many strings the run
+    itself hashed) and not `… ∨ Collision64 H`: the latter follows from `Out32 H` alone, so a theorem concluding it
+    would be a consequence of the pigeonhole lemma.  (An intermediate version of those theorems did; this audit found it.) -/
 theorem C04_position_binding_conclusion_always (H : Bytes → Bytes) (hH : C04.Out32 H) : C04.Collision64 H :=
   C04.collision64_exists H hH
 
 /-- the same for `C01S.processWithdrawal_doc_binds_or_collision`: its hypothesis "the digest is 32 bytes"
-    alone gives the right disjunct of its conclusion -/
+    alone gives the right disjunct of its conclusion — hence `C01X.processWithdrawal_doc_binds_explicit`, which names the
+    colliding pair (the two pre-images, or the two transactions) -/
 theorem processWithdrawal_doc_binds_or_collision_conclusion_always (c : Relayer.Crypto)
     (h : ∀ x, (c.sha256 x).length = 32) : C01S.Collision c.sha256 := by
   apply Classical.byContradiction
